@@ -35,6 +35,9 @@ Branch(x) == IF x.len = 0 THEN "empty" ELSE IF IsWellFormedPointer(x) THEN "pass
 \* combinations that make sense (pruning inside Init, so it also holds for simulation)
 Meaningful(x, d, f, w) ==
   /\ (f = "gitadd" => d = "whole" /\ w = "same")           \* git owns delivery and the file
+  /\ (f = "mergedriver" => d = "whole" /\ w \in {"shorter", "longer"} /\ x.kind = "merge")   \* git merge through `git lfs merge-driver`:
+                                                           \* w = how the previous pointer file compares in length with the new one
+  /\ (x.kind = "merge" => f = "mergedriver")
   /\ (f = "process" => d \in {"pkt1", "pkt7", "pkt1024", "pktmax"})
   /\ (f = "oneshot" => d \notin {"pkt1", "pkt7", "pkt1024", "pktmax"})
   /\ (d = "bytes1" => x.len <= 70000)
